@@ -118,7 +118,7 @@ def abor_case(verb, place, size=None, follow="pwd", pool=True, rest=None):
     steps.append(["snap", "after"])
     if kind in ("noread", "stalled", "stalled_gate", "two"):
         steps.append(["dread", "all"])
-    if (kind in ("sent", "gate", "late_gate") and verb in ("STOR", "APPE")) or (kind == "two" and place[2] == "stor"):
+    if (kind in ("sent", "gate", "late_gate", "tgate") and verb in ("STOR", "APPE")) or (kind == "two" and place[2] == "stor"):
         steps.append(["dsend", 3])  # bytes sent after the abort must not be stored
     steps.append(["release", None])
     if kind == "handler_gate" and verb in ("STOR", "APPE"):
@@ -131,15 +131,17 @@ def abor_case(verb, place, size=None, follow="pwd", pool=True, rest=None):
         "steps": steps, "gates": gates, "pool": pool, "files": files, "payload": payload, "block": block,
         "inspect": ["up", "old", "up2", "old2", "f"],
         **({"water": [8, 16]} if kind in ("stalled", "stalled_gate") or "retr_stalled" in place[1:] else {}),
+        **({"backend": "async"} if kind == "tgate" else {}),
     }
 
 
 # ------------------------------------------------------------------ oracle
 def expected_listing(case, which):
     """bytes an undisturbed LIST d / MLSD d / RETR f delivers in this file system (reference run on the real server)"""
-    key = (which, json.dumps(case["files"], sort_keys=True), case["block"])
+    key = (which, json.dumps(case["files"], sort_keys=True), case["block"], case.get("backend"))
     if key not in _REF:
-        ref = {"steps": LOGIN + [["dconn"], ["cmd", which]], "pool": False, "files": case["files"], "block": case["block"]}
+        ref = {"steps": LOGIN + [["dconn"], ["cmd", which]], "pool": False, "files": case["files"], "block": case["block"],
+               "backend": case.get("backend")}
         r = xfer.run_case(ref)
         _REF[key] = r.data[0].got
     return _REF[key]
@@ -208,7 +210,8 @@ def oracle(case, r):
             early.remove(150)
         led = r.snaps["after"]["ledger"]
         stray = [t for t in led["tasks"] if t not in ("Server.dispatcher", "Server.parse_command", "Server.response_writer")]
-        if early == window and (stray or led["files"]):
+        closing = any(g[0] in ("close", "t:close") for g in case["gates"])  # the back-end close itself is the slow call
+        if early == window and (stray or led["files"]) and not closing:
             bad.append(("leftover-after-answer", f"ABOR has been answered {window} but the aborted transfer still has tasks {stray} / {led['files']} open file(s)"))
     if window not in want:
         bad.append(("answered", f"replies after ABOR {window}, expected one of {want}" + ("" if ctrl_up else "; the control connection was closed")))
@@ -418,6 +421,22 @@ def gen_cases(rng, thorough):
                     cases.append(abor_case(verb, ("gate", op, k), follow=nf()))
                     if thorough:
                         cases.append(abor_case(verb, ("late_gate", op, k), follow=nf()))
+    # the shipped AsyncPathIO back-end on a scratch directory: the cancel lands while the worker waits for an EXECUTOR job
+    # (the n-th blocking pathlib / file call blocks inside its thread)
+    disk_follow = ["pwd", "retr", "stor", "list", "abor", "pasv_retr"]
+    di = [0]
+
+    def df():
+        di[0] += 1
+        return disk_follow[di[0] % len(disk_follow)]
+
+    for verb, ops in (("RETR", [("open", 1), ("read", 1), ("read", 2), ("read", 3), ("close", 1)]),
+                      ("STOR", [("open", 1), ("write", 1), ("write", 2), ("close", 1)]),
+                      ("APPE", [("open", 1), ("write", 1), ("close", 1)]),
+                      ("LIST", [("stat", 2), ("stat", 3)])):
+        for op, n in ops:
+            for f in (disk_follow if thorough else [df()]):
+                cases.append(abor_case(verb, ("tgate", op, n), follow=f))
     # two transfers alive in one session (second PASV + data connection + transfer command while the first still runs)
     for first, second in TWO_PAIRS:
         for f in (follows if thorough else [nf()]):
@@ -463,7 +482,7 @@ def run_cases(ctx, cases, facts, stream):
         verb, place = case["verb"], case["place"]
         ctx.case((stream, verb, tuple(place), case["follow"], case["pool"], case["payload"], case.get("rest"), case["files"].get("f")))
         ctx.count(f"verb:{verb}")
-        ctx.count(f"place:{place[0]}" + (f":{place[1]}" if place[0] in ("gate", "late_gate", "idle", "stalled_gate") else ""))
+        ctx.count(f"place:{place[0]}" + (f":{place[1]}" if place[0] in ("gate", "late_gate", "idle", "stalled_gate", "tgate") else ""))
         ctx.count(f"follow:{case['follow']}")
         bad = oracle(case, r)
         aspects = [a for a, _ in bad]
